@@ -68,6 +68,9 @@ struct plain_alg
     template <typename CB>
     static chk run(world<T>& w, std::vector<std::size_t> const& calls, chk const& c, CB cb)
     {
+        if (w.h.get("dist2", 0) != 0)
+            return hep::plain(hep::make_integrand<T>(w.f, w.d, hep::make_dist_params<T>(2, T(0.0), T(1.0), "first"),
+                hep::make_dist_params<T>(2, T(0.0), T(1.0), w.name())), calls, c, cb);
         if (w.dist)
             return hep::plain(hep::make_integrand<T>(w.f, w.d, hep::make_dist_params<T>(2, T(0.0), T(1.0), w.name())), calls, c, cb);
         return hep::plain(hep::make_integrand<T>(w.f, w.d), calls, c, cb);
@@ -119,6 +122,9 @@ struct vegas_alg
     template <typename CB>
     static chk run(world<T>& w, std::vector<std::size_t> const& calls, chk const& c, CB cb)
     {
+        if (w.h.get("dist2", 0) != 0)
+            return hep::vegas(hep::make_integrand<T>(w.f, w.d, hep::make_dist_params<T>(2, T(0.0), T(1.0), "first"),
+                hep::make_dist_params<T>(2, T(0.0), T(1.0), w.name())), calls, c, cb);
         if (w.dist)
             return hep::vegas(hep::make_integrand<T>(w.f, w.d, hep::make_dist_params<T>(2, T(0.0), T(1.0), w.name())), calls, c, cb);
         return hep::vegas(hep::make_integrand<T>(w.f, w.d), calls, c, cb);
